@@ -13,7 +13,8 @@ EXTENDS Integers, Sequences, FiniteSets, TLC, Json
 CONSTANTS MaxLen,        \* maximal content length
           Alphabet,      \* symbols; 0 is the newline
           Ms,            \* candidate max_event_size values (0 = unlimited)
-          M_MaintenanceKeepsTail   \* maintenance of an idle job leaves its held-back tail alone
+          M_MaintenanceKeepsTail,  \* maintenance of an idle job leaves its held-back tail alone
+          M_MaintenanceSkipsBusyJob \* a maintenance tick that lands in the middle of a pass does not touch the job
 
 NL == 0
 
@@ -107,6 +108,14 @@ Maintain ==
   /\ tail' = IF M_MaintenanceKeepsTail THEN tail ELSE <<>>
   /\ UNCHANGED <<cs, shouldSkip, skipLine, file, seg, pos, curOffset, pc, lastOffset, accum, buf, scanned, readTotal, calls, rounds>>
 
+(* a maintenance tick while a worker is in the middle of a pass over the job (isDone = FALSE): maintenanceJob returns at once.
+   M_MaintenanceSkipsBusyJob FALSE = the position is queried before that test: Job.seek(0, SeekCurrent) REWRITES job.curOffset with
+   the descriptor's position, and the worker adds the bytes it has read on top of it at the end of the pass (seeded change r6-C06-1). *)
+MaintainBusy ==
+  /\ pc \in {"read", "scan", "afterbuf"}
+  /\ curOffset' = IF M_MaintenanceSkipsBusyJob THEN curOffset ELSE pos
+  /\ UNCHANGED <<cs, shouldSkip, skipLine, file, seg, pos, tail, pc, lastOffset, accum, buf, scanned, readTotal, calls, rounds>>
+
 (* job taken from jobsChan: lastOffset := job.curOffset; accumBuf := job.tail *)
 StartRound ==
   /\ pc = "idle"
@@ -175,7 +184,7 @@ EndRound ==
        ELSE /\ pc' = "done" /\ UNCHANGED <<file, seg>>
   /\ UNCHANGED <<cs, shouldSkip, skipLine, pos, curOffset, tail, lastOffset, accum, buf, scanned, readTotal, calls>>
 
-Next == StartRound \/ Read \/ Scan \/ AfterBuf \/ EndRound \/ Maintain
+Next == StartRound \/ Read \/ Scan \/ AfterBuf \/ EndRound \/ Maintain \/ MaintainBusy
 
 Spec == Init /\ [][Next]_vars
 
